@@ -47,16 +47,24 @@ ShpSeqs == UNION { [1..k -> ShapeIds] : k \in 1..MaxV }
 
 \* PS packings: PES per video / audio frame (m / ma), RTP packets per pack, PTS on every PES, system header, PSM on
 \* every key frame, audio PES joined to the preceding pack, DTS field written (PTS_DTS_flags = 3) with
-\* PTS - DTS = dv / da ticks on the video / audio track
-PsTab == [p1 |-> [m |-> 1, ma |-> 1, c |-> 1, pall |-> TRUE, sys |-> TRUE, psme |-> TRUE, join |-> FALSE, dts |-> FALSE, dv |-> 0, da |-> 0],
-          p2 |-> [m |-> 2, ma |-> 2, c |-> 1, pall |-> TRUE, sys |-> FALSE, psme |-> FALSE, join |-> FALSE, dts |-> FALSE, dv |-> 0, da |-> 0],
-          p3 |-> [m |-> 3, ma |-> 2, c |-> 2, pall |-> FALSE, sys |-> TRUE, psme |-> TRUE, join |-> TRUE, dts |-> FALSE, dv |-> 0, da |-> 0],
-          p4 |-> [m |-> 2, ma |-> 1, c |-> 3, pall |-> FALSE, sys |-> FALSE, psme |-> TRUE, join |-> FALSE, dts |-> FALSE, dv |-> 0, da |-> 0],
-          p5 |-> [m |-> 1, ma |-> 1, c |-> 2, pall |-> TRUE, sys |-> TRUE, psme |-> FALSE, join |-> TRUE, dts |-> FALSE, dv |-> 0, da |-> 0],
-          p6 |-> [m |-> 0, ma |-> 1, c |-> 1, pall |-> FALSE, sys |-> TRUE, psme |-> TRUE, join |-> FALSE, dts |-> FALSE, dv |-> 0, da |-> 0],
-          p7 |-> [m |-> 1, ma |-> 1, c |-> 1, pall |-> TRUE, sys |-> TRUE, psme |-> TRUE, join |-> FALSE, dts |-> TRUE, dv |-> 0, da |-> 0],
-          p8 |-> [m |-> 2, ma |-> 2, c |-> 2, pall |-> FALSE, sys |-> TRUE, psme |-> TRUE, join |-> TRUE, dts |-> TRUE, dv |-> 3000, da |-> 900],
-          p9 |-> [m |-> 2, ma |-> 2, c |-> 1, pall |-> TRUE, sys |-> FALSE, psme |-> TRUE, join |-> FALSE, dts |-> TRUE, dv |-> 7200, da |-> 0]]
+\* PTS - DTS = dv / da ticks on the video / audio track; ga = AAC (ADTS) frames per audio PES group: the first
+\* carries the PTS, the others ride behind it in the same PES payload (cut into ma PES like a single frame: with
+\* ma = 2 and no PTS on the second PES, a PES without PTS may begin with a new ADTS frame); tiny = audio frames
+\* of 1..4 bytes (ADTS: 8..11 bytes with the header)
+PsTab == [p1 |-> [m |-> 1, ma |-> 1, c |-> 1, pall |-> TRUE, sys |-> TRUE, psme |-> TRUE, join |-> FALSE, dts |-> FALSE, dv |-> 0, da |-> 0, ga |-> 1, tiny |-> FALSE],
+          p2 |-> [m |-> 2, ma |-> 2, c |-> 1, pall |-> TRUE, sys |-> FALSE, psme |-> FALSE, join |-> FALSE, dts |-> FALSE, dv |-> 0, da |-> 0, ga |-> 1, tiny |-> FALSE],
+          p3 |-> [m |-> 3, ma |-> 2, c |-> 2, pall |-> FALSE, sys |-> TRUE, psme |-> TRUE, join |-> TRUE, dts |-> FALSE, dv |-> 0, da |-> 0, ga |-> 1, tiny |-> FALSE],
+          p4 |-> [m |-> 2, ma |-> 1, c |-> 3, pall |-> FALSE, sys |-> FALSE, psme |-> TRUE, join |-> FALSE, dts |-> FALSE, dv |-> 0, da |-> 0, ga |-> 1, tiny |-> FALSE],
+          p5 |-> [m |-> 1, ma |-> 1, c |-> 2, pall |-> TRUE, sys |-> TRUE, psme |-> FALSE, join |-> TRUE, dts |-> FALSE, dv |-> 0, da |-> 0, ga |-> 1, tiny |-> FALSE],
+          p6 |-> [m |-> 0, ma |-> 1, c |-> 1, pall |-> FALSE, sys |-> TRUE, psme |-> TRUE, join |-> FALSE, dts |-> FALSE, dv |-> 0, da |-> 0, ga |-> 1, tiny |-> FALSE],
+          p7 |-> [m |-> 1, ma |-> 1, c |-> 1, pall |-> TRUE, sys |-> TRUE, psme |-> TRUE, join |-> FALSE, dts |-> TRUE, dv |-> 0, da |-> 0, ga |-> 1, tiny |-> FALSE],
+          p8 |-> [m |-> 2, ma |-> 2, c |-> 2, pall |-> FALSE, sys |-> TRUE, psme |-> TRUE, join |-> TRUE, dts |-> TRUE, dv |-> 3000, da |-> 900, ga |-> 1, tiny |-> FALSE],
+          p9 |-> [m |-> 2, ma |-> 2, c |-> 1, pall |-> TRUE, sys |-> FALSE, psme |-> TRUE, join |-> FALSE, dts |-> TRUE, dv |-> 7200, da |-> 0, ga |-> 1, tiny |-> FALSE],
+          p10 |-> [m |-> 1, ma |-> 1, c |-> 1, pall |-> TRUE, sys |-> TRUE, psme |-> TRUE, join |-> FALSE, dts |-> FALSE, dv |-> 0, da |-> 0, ga |-> 2, tiny |-> FALSE],
+          p11 |-> [m |-> 2, ma |-> 2, c |-> 2, pall |-> FALSE, sys |-> TRUE, psme |-> TRUE, join |-> TRUE, dts |-> TRUE, dv |-> 3000, da |-> 900, ga |-> 3, tiny |-> FALSE],
+          p12 |-> [m |-> 1, ma |-> 1, c |-> 1, pall |-> TRUE, sys |-> TRUE, psme |-> TRUE, join |-> FALSE, dts |-> FALSE, dv |-> 0, da |-> 0, ga |-> 1, tiny |-> TRUE],
+          p13 |-> [m |-> 2, ma |-> 2, c |-> 2, pall |-> FALSE, sys |-> FALSE, psme |-> TRUE, join |-> TRUE, dts |-> TRUE, dv |-> 0, da |-> 0, ga |-> 1, tiny |-> TRUE],
+          p14 |-> [m |-> 3, ma |-> 1, c |-> 3, pall |-> FALSE, sys |-> TRUE, psme |-> FALSE, join |-> FALSE, dts |-> FALSE, dv |-> 0, da |-> 0, ga |-> 3, tiny |-> TRUE]]
 
 \* timestamp regions: at = the landmark, x = the track crosses it (else it starts there)
 Reg == [lo  |-> [at |-> <<0, 0, 0>>, x |-> FALSE],
@@ -96,20 +104,30 @@ Start(r, step, L, off) == IF Reg[r].x THEN T3SubN(Reg[r].at, Lead(step, L)) ELSE
 DV(p) == IF p.path = "ps" /\ PsTab[p.v].dts THEN PsTab[p.v].dv ELSE 0
 DA(p) == IF p.path = "ps" /\ PsTab[p.v].dts THEN PsTab[p.v].da ELSE 0
 VStart(p) == Start(p.rv, VStep(p.path), Len(p.shp), 0)
-AStart(p) == Start(IF p.ra = "same" THEN p.rv ELSE p.ra, AStep(p.path, AudioTab[p.au]), Len(p.shp), 777)
+\* ps with AAC: GA frames per audio PES group, one group per video frame; the heads of the groups stand GA frame
+\* durations (rounded up to a tick) apart, the riders at their implied times
+GA(p) == IF p.path = "ps" /\ AudioTab[p.au].c = "aac" THEN PsTab[p.v].ga ELSE 1
+Tiny(p) == p.path = "ps" /\ PsTab[p.v].tiny
+AStepF(p) == IF GA(p) = 1 THEN AStep(p.path, AudioTab[p.au])
+             ELSE GA(p) * (ImpOff(1, 90000, AudioTab[p.au].r) + 1)
+AStartF(p) == Start(IF p.ra = "same" THEN p.rv ELSE p.ra, AStepF(p), Len(p.shp), 777)
+ASize(p, idx) == IF Tiny(p) THEN 1 + (idx % 4) ELSE 10 + idx
 VFrame(p, j) == LET ks == Expand(p.vc, Shapes[p.shp[j]], 1)
-                IN [trk |-> "v", ts |-> T3AddN(VStart(p), DV(p) + (j - 1) * VStep(p.path)), d |-> DV(p),
+                IN [trk |-> "v", ts |-> T3AddN(VStart(p), DV(p) + (j - 1) * VStep(p.path)), d |-> DV(p), g |-> 0,
                     us |-> [i \in 1..Len(ks) |-> [k |-> ks[i], id |-> (j - 1) * 6 + i, n |-> USize(ks[i], j, i)]]]
-AFrame(p, j) == [trk |-> "a", ts |-> T3AddN(AStart(p), DA(p) + (j - 1) * AStep(p.path, AudioTab[p.au])), d |-> DA(p),
-                 us |-> <<[k |-> "au", id |-> 60 + j, n |-> 9 + j]>>]
-SentV(p, L, x) == [trk |-> "v", ts |-> T3AddN(VStart(p), DV(p) + (L - 1) * VStep(p.path) + x * 2 * VSec(p.path)), d |-> DV(p),
+\* audio frame x (1..GA) of group j; idx = its position on the track, from 0
+AFrame(p, j, x) == LET idx == (j - 1) * GA(p) + (x - 1)
+                       head == T3AddN(AStartF(p), DA(p) + (j - 1) * AStepF(p))
+                   IN [trk |-> "a", ts |-> T3AddN(head, ImpOff(x - 1, 90000, AudioTab[p.au].r)), d |-> DA(p), g |-> x - 1,
+                       us |-> <<[k |-> "au", id |-> 61 + idx, n |-> ASize(p, idx)]>>]
+SentV(p, L, x) == [trk |-> "v", ts |-> T3AddN(VStart(p), DV(p) + (L - 1) * VStep(p.path) + x * 2 * VSec(p.path)), d |-> DV(p), g |-> 0,
                    us |-> <<[k |-> "idr", id |-> SentId + x, n |-> 9]>>]
-SentA(p, L, x) == [trk |-> "a", ts |-> T3AddN(AStart(p), DA(p) + (L - 1) * AStep(p.path, AudioTab[p.au]) + x * 2 * ASec(p.path, AudioTab[p.au])), d |-> DA(p),
+SentA(p, L, x) == [trk |-> "a", ts |-> T3AddN(AStartF(p), DA(p) + (L - 1) * AStepF(p) + x * 2 * ASec(p.path, AudioTab[p.au])), d |-> DA(p), g |-> 0,
                    us |-> <<[k |-> "au", id |-> SentId + 2 + x, n |-> 9]>>]
 HasA(p) == p.au # "none"
 RECURSIVE Real(_, _)
 Real(p, j) == IF j > Len(p.shp) THEN <<>>
-              ELSE <<VFrame(p, j)>> \o (IF HasA(p) THEN <<AFrame(p, j)>> ELSE <<>>) \o Real(p, j + 1)
+              ELSE <<VFrame(p, j)>> \o (IF HasA(p) THEN [x \in 1..GA(p) |-> AFrame(p, j, x)] ELSE <<>>) \o Real(p, j + 1)
 Frames(p) == LET L == Len(p.shp) IN
              Real(p, 1) \o <<SentV(p, L, 1)>> \o (IF HasA(p) THEN <<SentA(p, L, 1)>> ELSE <<>>)
                         \o <<SentV(p, L, 2)>> \o (IF HasA(p) THEN <<SentA(p, L, 2)>> ELSE <<>>)
@@ -144,7 +162,7 @@ PsPlan(p) ==
              [f |-> f, m |-> IF fs[f].trk = "v" THEN t.m ELSE t.ma, c |-> t.c, pall |-> t.pall,
               sys |-> t.sys /\ (f = 1 \/ HasKind(fs[f], {"idr"})),
               psm |-> f = 1 \/ (t.psme /\ HasKind(fs[f], ParamKinds \cup {"idr"})),
-              join |-> t.join /\ fs[f].trk = "a" /\ f > 1, dts |-> t.dts]]
+              join |-> t.join /\ fs[f].trk = "a" /\ f > 1, dts |-> t.dts, ride |-> fs[f].g > 0]]
 
 SdpSets(p) == IF p.sdp THEN [x \in 1..Len(Need(p.vc)) |-> [k |-> Need(p.vc)[x], n |-> 1]] ELSE <<>>
 Asc(p) == <<2, AudioTab[p.au].fi, IF AudioTab[p.au].r >= 44100 THEN 2 ELSE 1>>
@@ -152,7 +170,7 @@ Asc(p) == <<2, AudioTab[p.au].fi, IF AudioTab[p.au].r >= 44100 THEN 2 ELSE 1>>
 PTrk(p) == IF p.path = "ps" THEN "all" ELSE "v"
 NPert(p) == IF p.path = "rtsp" THEN LET fs == Frames(p) IN Len(SelectSeq(Plan(p), LAMBDA q : fs[q.f].trk = "v"))
             ELSE IF p.path = "ps" THEN LET pp == PsPlan(p)
-                                           idx == {f \in 1..Len(pp) : ~pp[f].join}
+                                           idx == {f \in 1..Len(pp) : ~pp[f].join /\ ~pp[f].ride}
                                        IN Cardinality(idx) * PsTab[p.v].c
             ELSE 0
 
